@@ -4,23 +4,26 @@
  * inside the call (a symbolic choice here makes every later pointer of the structure symbolic).
  * - calloc/malloc: fail (NULL, errno = ENOMEM) iff verif_alloc_fail, otherwise a fresh (zeroed) object.
  * - realloc: fails likewise (old object untouched), otherwise a fresh object of the new size holding the
- *   common prefix (copied byte-wise up to VERIF_REALLOC_COPY_MAX bytes, the units' largest old object),
- *   the old object is freed.
+ *   common prefix (memcpy), the old object is freed.
+ * - verif_alloc_budget >= 0: exactly that many further allocations succeed, all later ones fail.
  * Include after the system headers and before the spliced source.  Do not combine with alloc.h. */
 #ifndef VERIF_STUB_ALLOC_SCRIPT_H
 #define VERIF_STUB_ALLOC_SCRIPT_H
 #include "verif.h"
 #include <stdlib.h>
 #include <errno.h>
+#include <string.h>
 
 int verif_alloc_fail;         /* harness switch: 1 = allocations fail from now on */
+int verif_alloc_budget = -1;  /* harness switch: >= 0 = only this many more allocations succeed, then they fail */
+#define VERIF_ALLOC_FAILS_NOW() (verif_alloc_fail || (verif_alloc_budget >= 0 && verif_alloc_budget-- <= 0 && (verif_alloc_budget = 0, 1)))
 unsigned verif_alloc_calls;   /* ghost: number of successful allocations */
 unsigned verif_free_calls;    /* ghost: number of free() calls with a non-NULL argument */
 
 static void *verif_calloc(size_t n, size_t sz)
 {
 	void *p;
-	if (verif_alloc_fail) {
+	if (VERIF_ALLOC_FAILS_NOW()) {
 		errno = ENOMEM;
 		return NULL;
 	}
@@ -35,7 +38,7 @@ static void *verif_calloc(size_t n, size_t sz)
 static void *verif_malloc(size_t n)
 {
 	void *p;
-	if (verif_alloc_fail) {
+	if (VERIF_ALLOC_FAILS_NOW()) {
 		errno = ENOMEM;
 		return NULL;
 	}
@@ -47,14 +50,11 @@ static void *verif_malloc(size_t n)
 	return p;
 }
 
-#ifndef VERIF_REALLOC_COPY_MAX
-#define VERIF_REALLOC_COPY_MAX 16
-#endif
 static void *verif_realloc(void *old, size_t n)
 {
 #ifdef VERIF_CBMC
 	char *p;
-	if (verif_alloc_fail) {
+	if (VERIF_ALLOC_FAILS_NOW()) {
 		errno = ENOMEM;
 		return NULL;
 	}
@@ -62,19 +62,13 @@ static void *verif_realloc(void *old, size_t n)
 	__CPROVER_assume(p != NULL);
 	if (old != NULL) {
 		size_t osz = __CPROVER_OBJECT_SIZE(old);
-		size_t i;
-		__CPROVER_assert(osz <= VERIF_REALLOC_COPY_MAX, "AUX: realloc stub copies the whole old object");
-		for (i = 0; i < VERIF_REALLOC_COPY_MAX; i++) {
-			if (i < osz && i < n) {
-				p[i] = ((char *)old)[i];
-			}
-		}
+		memcpy(p, old, osz < n ? osz : n);
 		free(old);
 	}
 	verif_alloc_calls++;
 	return p;
 #else
-	if (verif_alloc_fail) {
+	if (VERIF_ALLOC_FAILS_NOW()) {
 		errno = ENOMEM;
 		return NULL;
 	}
